@@ -14,6 +14,7 @@
     E 0 <= cycle*ts (the first segment is not longer than the cycle).  [codeValid]: the range checks
     of ParseSegStatusCodes. *)
 From Verif Require Import GoSem Timeline TimelineProofs Fault FaultProofs FaultLossProofs.
+From VerifGen Require Consts.
 
 (** ** statuscode_ *)
 
@@ -255,7 +256,7 @@ Theorem C14_empty_pattern_rejected :
 Proof. exact empty_pattern_rejected. Qed.
 Print Assumptions C14_empty_pattern_rejected.
 
-(** The parser with the range check of proposed_fixes/C14-loss-duration-range.diff
+(** The parser as it is since cae471f, with the range check of the interval durations
     ([createLossItvlsB mx], mx = maxLossItvlDurS of the source): what is written with durations
     1..mx is read back; every accepted pattern has all durations within 1..mx; and for a pattern
     shorter than 2^32 bytes neither the cycle nor the arithmetic of StateAt can wrap: the cycle is
@@ -277,6 +278,15 @@ Theorem C14_loss_no_overflow : forall p l s,
 Proof. exact parse_no_overflow. Qed.
 Print Assumptions C14_loss_no_overflow.
 
+(** The bound and the state numbers of the model are the constants of the Go source (gen/Consts.v is
+    regenerated from /repo on every run): changing maxLossItvlDurS or the lossState enumeration breaks
+    this obligation. *)
+Theorem C14_loss_bound_const :
+  Consts.app_maxLossItvlDurS = maxLossItvlDur /\
+  map lstateZ [LUnknown; LNo; L404; LSlow; LHang]
+  = [Consts.app_lossUnknown; Consts.app_lossNo; Consts.app_loss404; Consts.app_lossSlow; Consts.app_lossHang].
+Proof. split; reflexivity. Qed.
+
 Theorem C14_loss_overflow_rejected :
   createLossItvlsB maxLossItvlDur (bytesOf "u18446744073709551617") = Err "invalid loss pattern: interval too long" /\
   createLossItvlsB maxLossItvlDur (bytesOf "u99999999999999999999d1") = Err "invalid loss pattern: interval too long" /\
@@ -285,7 +295,7 @@ Theorem C14_loss_overflow_rejected :
 Proof. exact loss_overflow_rejected. Qed.
 Print Assumptions C14_loss_overflow_rejected.
 
-(** The parser before that check ([createLossItvls]): a duration written with 20 digits wraps the
+(** The parser before cae471f ([createLossItvls], used by the harness when it finds the check reverted): a duration written with 20 digits wraps the
     64-bit int and is accepted with another value. *)
 Theorem C14_loss_overflow_refuted_before_fix :
   createLossItvls (bytesOf "u18446744073709551617") = Ok [{| l_dur := 1; l_state := LNo |}] /\
